@@ -148,27 +148,42 @@ RefCheck(m) ==
         \/ \E var \in (SUBSET AmbiguousChoices) \ {{}} : got = MsgsOf(Ref(m.hroot[h], m.g, m.h0[h], hi, var))
 
 (* --- group_by (C20): one group per key in first-appearance order, every item to exactly its group --- *)
-RECURSIVE KeysOf(_, _, _), ItemsOfKey(_, _, _)
-KeysOf(c, items, acc) == IF items = <<>> THEN acc
-                         ELSE LET k == KeyF(c, Head(items)) IN
-                              KeysOf(c, Tail(items), IF SeqContains(acc, k) THEN acc ELSE Append(acc, k))
-ItemsOfKey(c, items, k) == IF items = <<>> THEN <<>>
-                           ELSE (IF KeyF(c, Head(items)) = k THEN <<Head(items)>> ELSE <<>>) \o ItemsOfKey(c, Tail(items), k)
 TermMsgs(s) == IF s.term = "C" THEN <<<<"C", U>>>> ELSE IF s.term = "E" THEN <<<<"E", s.ev>>>> ELSE <<>>
+
+(* the group_by node a stream-of-groups AST is built on (0: none) *)
+RECURSIVE GroupNode(_)
+GroupNode(x) == IF x = 0 THEN 0
+                ELSE IF Op(x) = "group_by" THEN x
+                ELSE IF Op(x) \in {"take", "skip", "take_until"} THEN GroupNode(S1(x)) ELSE 0
+NoSid(msgs) == [i \in 1..Len(msgs) |-> IF msgs[i][1] = "N" /\ msgs[i][2][1] = "g" THEN <<"N", G(0, msgs[i][2][3])>> ELSE msgs[i]]
+RECURSIVE NthItem(_, _)
+NthItem(msgs, k) == IF msgs = <<>> THEN U
+                    ELSE IF Head(msgs)[1] = "N" THEN (IF k = 1 THEN Head(msgs)[2] ELSE NthItem(Tail(msgs), k - 1))
+                    ELSE NthItem(Tail(msgs), k)
 
 GroupCheck(m, C) ==
   \A p \in 1..m.np :
-     LET h == GetI(m.ph, p) IN
-     (h > 0 /\ m.hroot[h] > 0 /\ Op(m.hroot[h]) = "group_by") =>
-        LET x == m.hroot[h]
-            src == Ref(S1(x), m.g, m.h0[h], Len(m.g), {})
-            keys == KeysOf(PA(x), src.items, <<>>)
-            base == C.nsubj + C.nbeh
-        IN /\ GetS(m.plog, p) = [i \in 1..Len(keys) |-> <<"N", G(base + i, keys[i])>>] \o TermMsgs(src)
+     LET h == GetI(m.ph, p)
+         x == IF h > 0 THEN m.hroot[h] ELSE 0
+         hi == IF h > 0 /\ GetI(m.hend, h) > 0 THEN m.hend[h] - 1 ELSE Len(m.g)
+     IN
+     /\ (x > 0 /\ GroupNode(x) > 0) =>
+        (* the stream of groups (possibly below take / skip / take_until): one announcement per distinct key, in order of *)
+        (* first appearance, as documented for the operators above it; every group announced to a subscriber that       *)
+        (* attaches at once receives every source item of its key, in order, and the source's terminal -- whether or    *)
+        (* not the stream of groups itself has finished meanwhile                                                       *)
+        LET gx == GroupNode(x)
+            src == Ref(S1(gx), m.g, m.h0[h], hi, {})
+            outer == Ref(x, m.g, m.h0[h], hi, {})
+        IN /\ NoSid(GetS(m.plog, p)) = MsgsOf(outer)
            /\ \A j \in 1..Len(m.gp) :
                  m.gp[j][2] = p =>
-                    /\ m.gp[j][3] <= Len(keys)
-                    /\ GetS(m.plog, m.gp[j][1]) = NMsgs(ItemsOfKey(PA(x), src.items, keys[m.gp[j][3]])) \o TermMsgs(src)
+                    LET gv == NthItem(GetS(m.plog, p), m.gp[j][3]) IN
+                    /\ gv # U
+                    /\ GetS(m.plog, m.gp[j][1]) = NMsgs(ItemsOfKey(PA(gx), src.items, gv[3])) \o TermMsgs(src)
+     (* flattening the groups back reproduces the source sequence *)
+     /\ (x > 0 /\ Op(x) = "flat" /\ Op(S1(x)) = "group_by" /\ PA(x) = 999) =>
+        GetS(m.plog, p) = MsgsOf(Ref(S1(S1(x)), m.g, m.h0[h], hi, {}))
 
 (* --- C07: scheduler-moving operators preserve the source's sequence and never deliver early --- *)
 MovingOps == {"delay", "observe_on", "delay_subscription", "subscribe_on"}
@@ -221,8 +236,11 @@ C07Check(m, o, C) ==
 (* one-shot task is armed when the task is first polled, the period timer of the buffers when the task is *)
 (* built.  T9Step returns the new automaton state and the notifications documented for this stimulus.     *)
 RateOps == {"debounce", "throttle", "buffer_time", "buffer_count_time"}
-T9Init(x, now) == [init |-> TRUE, op |-> Op(x), a |-> PA(x), b |-> PB(x), pend |-> NoneV, tk |-> "none", dl |-> 0, d |-> 0,
-                   buf |-> <<>>, fur |-> now + (IF Op(x) = "buffer_time" THEN PA(x) ELSE PB(x)), done |-> FALSE, out |-> <<>>]
+(* sample(notifier = interval(period)) is one more of them: a = the sampler's period *)
+Is9(x) == Op(x) \in RateOps \/ (Op(x) = "sample" /\ Op(S2(x)) = "interval" /\ PB(S2(x)) < 0)
+T9Init(x, now) == [init |-> TRUE, op |-> Op(x), a |-> IF Op(x) = "sample" THEN PA(S2(x)) ELSE PA(x), b |-> PB(x), pend |-> NoneV, tk |-> "none", dl |-> 0, d |-> 0,
+                   buf |-> <<>>, fur |-> now + (IF Op(x) = "buffer_time" THEN PA(x) ELSE IF Op(x) = "sample" THEN PA(S2(x)) ELSE PB(x)),
+                   done |-> FALSE, out |-> <<>>]
 Out9(z, t, v) == [z EXCEPT !.out = Append(@, <<t, v>>)]
 RECURSIVE T9Run(_, _)
 (* one sweep of the executor at time now, repeated until nothing is runnable *)
@@ -233,6 +251,11 @@ T9Run(z, now) ==
       (IF IsSome(z.pend) /\ ~z.done THEN Out9([z EXCEPT !.tk = "none", !.pend = NoneV], "N", Unwrap(z.pend))
        ELSE [z EXCEPT !.tk = "none", !.pend = NoneV])
     ELSE z
+  ELSE IF z.op = "sample" THEN      \* one tick of the sampler per period: the latest item not yet sampled, if any
+    IF ~z.done /\ now >= z.fur THEN
+      LET z1 == IF IsSome(z.pend) THEN Out9([z EXCEPT !.pend = NoneV], "N", Unwrap(z.pend)) ELSE z IN
+      T9Run([z1 EXCEPT !.fur = now + z.a], now)
+    ELSE z
   ELSE (* the buffers: one tick per period *)
     IF ~z.done /\ now >= z.fur THEN
       LET z1 == IF z.buf # <<>> THEN Out9([z EXCEPT !.buf = <<>>], "N", L(z.buf)) ELSE z IN
@@ -241,7 +264,8 @@ T9Run(z, now) ==
 
 (* completion: what is pending is released, then the completion *)
 T9Complete(z) ==
-  IF z.op \in {"debounce", "throttle"}
+  IF z.op = "sample" THEN Out9(z, "C", U)        \* what was not sampled yet is dropped
+  ELSE IF z.op \in {"debounce", "throttle"}
   THEN Out9((IF IsSome(z.pend) THEN Out9([z EXCEPT !.pend = NoneV, !.tk = IF z.op = "throttle" THEN "none" ELSE z.tk], "N", Unwrap(z.pend))
              ELSE [z EXCEPT !.tk = IF z.op = "throttle" THEN "none" ELSE z.tk]), "C", U)
   ELSE Out9((IF z.buf # <<>> THEN Out9([z EXCEPT !.buf = <<>>], "N", L(z.buf)) ELSE z), "C", U)
@@ -253,7 +277,8 @@ T9Step(z0, s, now) ==
   ELSE IF s.t = "E" THEN Out9([z EXCEPT !.done = TRUE], "E", s.v)
   ELSE IF s.t = "C" THEN [T9Complete(z) EXCEPT !.done = TRUE]
   ELSE
-  CASE z.op = "debounce" ->
+  CASE z.op = "sample" -> [z EXCEPT !.pend = SomeV(s.v)]
+    [] z.op = "debounce" ->
          IF s.t = "N" THEN [z EXCEPT !.pend = SomeV(s.v), !.tk = "new", !.d = z.a]        \* the previous task is cancelled
          ELSE Out9((IF IsSome(z.pend) THEN Out9([z EXCEPT !.pend = NoneV], "N", Unwrap(z.pend)) ELSE z), "C", U)
     [] z.op = "throttle" ->     \* a = window (0: by selector), b = edge: 1 leading, 2 trailing, 3 both
@@ -423,7 +448,7 @@ MonStep(m0, step, C) ==
                      /\ o.cnt[CntTap] > m.lastcnt[CntTap], "C11", checks)
       r10 == Flag(r9, "C07" \in checks /\ o.fault = "" /\ ~C07Check([r9 EXCEPT !.gt = Pad(@, Len(r9.g), m.now)], o, C), "C07", checks)
       (* C09: the rate-limiting operator delivers exactly what its timed reference says, when it says *)
-      is9 == "C09" \in checks /\ r10.nh >= 1 /\ r10.hroot[1] > 0 /\ Op(r10.hroot[1]) \in RateOps
+      is9 == "C09" \in checks /\ r10.nh >= 1 /\ r10.hroot[1] > 0 /\ Is9(r10.hroot[1])
       z9 == IF ~is9 THEN m.t9
             ELSE LET zz == IF m.t9.init THEN m.t9 ELSE T9Init(r10.hroot[1], r10.ht[1]) IN
                  IF GetI(r10.hend, 1) > 0 THEN [zz EXCEPT !.out = <<>>] ELSE T9Step(zz, s, r10.now)
